@@ -234,17 +234,40 @@ def program(rng, **kw):
         inter = Ty("struct", name="Inter", members=ms, has_rts=False)
         io_lines.append("struct Inter {\n  @builtin(position) clip: vec4<f32>,\n  @location(0) uv: vec2<f32>,\n}")
     shared_host_vertex = None
-    if nentry and host_structs and rng.random() < 0.15:
+    if nentry and host_structs and rng.random() < 0.3:
         # a host struct that is ALSO a vertex input is only possible when its members are valid io types: make a fresh one
-        ms = [("p", Ty("vec", n=4, s="f32")), ("q", Ty("vec", n=4, s="f32"))]
-        shared_host_vertex = Ty("struct", name="Both", members=ms, has_rts=False)
-        io_lines.append("struct Both {\n  @location(10) p: vec4<f32>,\n  @location(11) q: vec4<f32>,\n}")
+        variant = rng.randrange(3)
+        if variant == 0:
+            ms = [("p", Ty("vec", n=4, s="f32")), ("q", Ty("vec", n=4, s="f32"))]
+            shared_host_vertex = Ty("struct", name="Both", members=ms, has_rts=False)
+            io_lines.append("struct Both {\n  @location(10) p: vec4<f32>,\n  @location(11) q: vec4<f32>,\n}")
+        elif variant == 1:     # a builtin member in the middle: skipped in Rust, but it occupies WGSL space
+            ms = [("p", Ty("vec", n=4, s="f32")), ("idx", Ty("scalar", s="u32")), ("q", Ty("scalar", s="f32"))]
+            shared_host_vertex = Ty("struct", name="Both", members=ms, has_rts=False, builtins={"idx"})
+            io_lines.append("struct Both {\n  @location(10) p: vec4<f32>,\n  @builtin(instance_index) idx: u32,\n  @location(11) q: f32,\n}")
+        else:                  # a builtin member first
+            ms = [("idx", Ty("scalar", s="u32")), ("p", Ty("vec", n=2, s="f32")), ("q", Ty("vec", n=4, s="f32"))]
+            shared_host_vertex = Ty("struct", name="Both", members=ms, has_rts=False, builtins={"idx"})
+            io_lines.append("struct Both {\n  @builtin(vertex_index) idx: u32,\n  @location(10) p: vec2<f32>,\n  @location(11) q: vec4<f32>,\n}")
         globals_.append(("storage_ro", "g%d" % b, Ty("array", elem=shared_host_vertex, n=2), b))
         used_by_global.append(shared_host_vertex)
         b += 1
+    fout_host = False
     if nentry and rng.random() < 0.4:
         fout = Ty("struct", name="FOut", members=[("c0", Ty("vec", n=4, s="f32")), ("c1", Ty("vec", n=4, s="f32"))], has_rts=False)
         io_lines.append("struct FOut {\n  @location(0) c0: vec4<f32>,\n  @location(1) c1: vec4<f32>,\n}")
+        if rng.random() < 0.35:
+            # an entry point result that is ALSO host-shareable (element of a storage array / member of a host struct)
+            fout_host = True
+            if rng.random() < 0.5:
+                globals_.append(("storage_rw", "g%d" % b, Ty("array", elem=fout, n=3), b))
+                used_by_global.append(fout)
+            else:
+                wrap = Ty("struct", name="WrapsOut", members=[("defaults", fout), ("k", Ty("scalar", s="f32"))], has_rts=False)
+                io_lines.append("struct WrapsOut {\n  defaults: FOut,\n  k: f32,\n}")
+                globals_.append(("uniform", "g%d" % b, wrap, b))
+                used_by_global.append(wrap)
+            b += 1
     # unused + function-local structs
     extra = []
     if rng.random() < 0.4:
@@ -300,14 +323,20 @@ def program(rng, **kw):
             emitted.add("Both")
     # Inter: entry argument of fs_main but also the result of vs_main -> not emitted; FOut: result only
     order = [s.name for s in host_structs] + ([rts_struct.name] if rts_struct else []) + [s.name for s in vin] \
-        + (["Inter"] if inter else []) + (["Both"] if shared_host_vertex else []) + (["FOut"] if fout else [])
+        + (["Inter"] if inter else []) + (["Both"] if shared_host_vertex else []) + (["FOut"] if fout else []) \
+        + (["WrapsOut"] if "WrapsOut" in host else [])
+    if fout:
+        all_structs["FOut"] = fout
+    if "WrapsOut" in host:
+        all_structs["WrapsOut"] = host["WrapsOut"]
     truth = []
     for n in order:
         if n in emitted and n in all_structs:
             s = all_structs[n]
+            bi = getattr(s, "builtins", set())
             truth.append({"name": n, "host": n in host, "rts": bool(getattr(s, "has_rts", False)),
-                          "size": s.size(), "offsets": s.offsets(),
-                          "members": [(mn, mt.shape()) for mn, mt in s.members]})
+                          "size": s.size(), "offsets": [(mn, off) for mn, off in s.offsets() if mn not in bi],
+                          "members": [(mn, mt.shape()) for mn, mt in s.members if mn not in bi]})
     return {"wgsl": "\n".join(lines) + "\n", "truth": truth, "needs_encase": rts_struct is not None}
 
 
